@@ -600,3 +600,6 @@ def check(model, rep, tier):
     from .generic import axis_convention_obligations
     axis_convention_obligations(model, rep, ["acryo/backend/_missing_wedge.py", "acryo/tilt/_utils.py", "acryo/_utils.py", "acryo/tilt/_single.py", "acryo/tilt/_base.py"],
                                 "1 grid", floor=3)
+    from .generic import with_params_forwarding_obligations
+    with_params_forwarding_obligations(model, rep, "3 models", ("tilt", "tilt_range"))
+    rep.floor("WPARAM", 1, "(with_params of the alignment model classes that name this option)")
